@@ -1,6 +1,6 @@
 """C14 SOL reader totality/safety: valid files from the reference codec with 0/1/2 deviations, every
 truncation, suffix-header lattice, long lines, declared sizes x handlers; each input in a forked child
-under ASan+UBSan with a delivery-protocol monitor."""
+under ASan+UBSan(+float-cast-overflow) with a delivery-protocol monitor."""
 import json, os, shutil, subprocess, sys
 import vbuild, vcheck
 
@@ -9,7 +9,7 @@ WORK = os.path.join(vcheck.VERIF, 'build', 'work', PID)
 
 
 def build():
-    return vbuild.build_program('c14_solsafe', 'san', ['checks/C14/solsafe_harness.cc'], mp_srcs=vbuild.NLW2_SRCS)
+    return vbuild.build_program('c14_solsafe', 'sanfc', ['checks/C14/solsafe_harness.cc'], mp_srcs=vbuild.NLW2_SRCS)
 
 
 def main(tier, seed):
@@ -28,7 +28,7 @@ def main(tier, seed):
     chk.set('bounds', {
         'base_solutions': 14, 'formats': ['text', 'binary (reference codec)'],
         'deviation_bound': '1 (quick: all handlers at equal sizes + all sizes for read_all/Easy; thorough: full cross product); 2 in thorough at equal sizes for read_all on 13 bases and SOLHandler_Easy on 3 bases',
-        'token_alternatives': ['0', '1', '-1', 'n+1', 'n-1', '2147483647', '2147483648', '1e300', '(empty)', 'x'],
+        'token_alternatives': ['0', '1', '-1', 'n+1', 'n-1', '2147483647', '2147483648', '1e300', '(empty)', 'x', 'nan', 'inf', '-inf', '-2147483649', '0.5'],
         'binary_alternatives': {'int': ['0', '1', '-1', 'n+1', 'n-1', 'INT_MAX', 'INT_MIN'], 'double': ['0', '1', '-1', 'n+1', '1e300', 'NaN'],
                                 'record_length_open_close': ['0', 'len+1', 'len-1', 'INT_MAX', 'closing length missing'],
                                 'raw': ['emptied', 'x-filled', 'one byte shorter', 'one byte longer'], 'record': ['deleted', 'duplicated']},
